@@ -55,6 +55,15 @@ fn programs() -> Vec<Program> {
       ],
     },
     P {
+      name: "rejected: diagnostics whose text is computed from collections (counterexamples of matches with several incomplete constructors, lists of unmentioned fields, of missing members, of missing variants)",
+      entry: "Main",
+      modules: vec![
+        ("Shapes", "class Opt<T>(None, Some(T)) {}\nclass Sh(Circle(Opt<int>), Square(Opt<int>), Tri(Opt<int>), Hex(Opt<int>), Oct(Opt<int>)) {}\ninterface Five {\n  method m1(): int\n  method m2(): int\n  method m3(): int\n  method m4(): int\n  method m5(): int\n  function s1(): int\n  function s2(): int\n}\nclass Rec(val f1: int, val f2: int, val f3: int, val f4: int, val f5: int) {}\n"),
+        ("Use", "import { Opt, Sh, Five, Rec } from Shapes\nclass U : Five {\n  function area(s: Sh): int = match s { Circle(Some(_)) -> 1, Square(Some(_)) -> 2, Tri(Some(_)) -> 3, Hex(Some(_)) -> 4, Oct(Some(_)) -> 5 }\n  function top(s: Sh): int = match s { Circle(_) -> 1 }\n  function nested(o: Opt<Sh>): int = match o { Some(Circle(None)) -> 1, Some(Hex(Some(_))) -> 2, None -> 3 }\n  function both(a: Sh, b: Sh): int = match (a, b) { (Circle(_), Circle(_)) -> 1, (Square(None), Tri(None)) -> 2 }\n  function fields(r: Rec): int = { let { f3 } = r; f3 }\n  function iflet(s: Sh): int = { let Circle(Some(x)) = s; x }\n}\nclass V : Five {\n  method m2(): int = 2\n  method m9(): bool = true\n}\n"),
+        ("Main", "import { U } from Use\nimport { Sh, Opt, Rec } from Shapes\nclass Main {\n  function main(): unit = {\n    let { f5, f1 } = Rec.init(1, 2, 3, 4, 5);\n    let n = match Sh.Oct(Opt.None<int>()) { Oct(Some(k)) -> k, Tri(Some(k)) -> k, Hex(Some(k)) -> k };\n    Process.println(Str.fromInt(U.area(Sh.Hex(Opt.Some(n + f5 + f1)))))\n  }\n}\n"),
+      ],
+    },
+    P {
       name: "accepted: classes of the same name with different type-parameter lists in two modules",
       entry: "Main",
       modules: vec![
